@@ -1,7 +1,8 @@
 """EFFECTS (C16): parse / exec / render reach no global mutation, no nondeterminism source, no
 hash-order iteration; contexts are fresh and only the passed-in context is touched."""
 import re
-from analysis import trace_operand, single_origin, guard_class, LOCK_CALLS, TRANSPARENT_CALLS
+from analysis import trace_operand, single_origin, guard_class, LOCK_CALLS, TRANSPARENT_CALLS, defuse
+from facts import Call, op_local
 from engine import ok, bad, assumed, floor
 import r_registry
 
@@ -24,6 +25,51 @@ def scope(ctx, rm):
     return [prog.by_id[i] for i in sorted(ids)], entries
 
 
+HM_READ = {'get', 'contains_key', 'iter', 'len', 'is_empty', 'keys', 'values', 'get_key_value'}
+
+
+def _only_read_through(b, c):
+    """every use of the `&mut HashMap` this deref_mut yields (through moves / reborrows) is as the receiver of a
+    non-mutating map method (`f(&mut guard)` opened at a caller whose closure only looks things up)"""
+    du = defuse(b)
+    seen = set()
+    work = [c.dest['l']] if not c.dest['p'] else []
+    if not work:
+        return False
+    n_calls = 0
+    while work:
+        l = work.pop()
+        if l in seen:
+            continue
+        seen.add(l)
+        for (bb, i) in du.uses.get(l, []):
+            if i == 'term':
+                t = b.blocks[bb]['term']
+                if t['k'] == 'drop':
+                    continue
+                if t['k'] != 'call':
+                    return False
+                cc = Call(b, bb, t)
+                m = r_registry.hm_method(cc)
+                if m in HM_READ and cc.args and op_local(cc.args[0]) == l and all(op_local(a) != l for a in cc.args[1:]):
+                    n_calls += 1
+                    continue
+                if cc.callee in ('std::ops::Deref::deref',) and not cc.dest['p']:
+                    work.append(cc.dest['l'])
+                    continue
+                return False
+            st = b.blocks[bb]['stmts'][i]
+            if st['k'] != 'assign' or st['pl']['p']:
+                return False
+            rv = st['rv']
+            if rv['k'] in ('use', 'ref', 'copy_for_deref') or (rv['k'] == 'cast' and 'Unsize' not in (rv.get('cast') or '')) \
+                    or (rv['k'] == 'agg' and rv.get('agg') == 'tuple'):        # the argument tuple of an opened `f(&mut guard)`
+                work.append(st['pl']['l'])
+                continue
+            return False
+    return n_calls > 0
+
+
 def rule_effects(ctx, rm):
     prog = ctx.prog
     bodies, entries = scope(ctx, rm)
@@ -41,6 +87,10 @@ def rule_effects(ctx, rm):
                 n_w += 1
                 obs.append(bad('EFFECTS', 'EFFECTS|write|%s|%s|#%d' % (b.name, m, k), 'parse / evaluation / rendering reaches a write (%s) to the global %s map in %s: results depend on what ran before' % (m, cls, b.name), c.where(), body=b.name, bb=c.bb))
             if c.callee == 'std::ops::DerefMut::deref_mut' and c.term['arg_tys'] and 'MutexGuard' in c.term['arg_tys'][0] and guard_class(c.term['arg_tys'][0]) in ('REGISTRY', 'DESCRIPTOR'):
+                if _only_read_through(b, c):
+                    obs.append(ok('EFFECTS', 'EFFECTS|derefmut-read|%s|#%d' % (b.name, cnt.get('deref_mut_r', 0)), 'the `&mut` map obtained from the guard in %s is only handed to non-mutating map methods (get / contains_key / iter / len ..): a read' % b.name, c.where()))
+                    cnt['deref_mut_r'] = cnt.get('deref_mut_r', 0) + 1
+                    continue
                 k = cnt.get('deref_mut', 0); cnt['deref_mut'] = k + 1
                 n_w += 1
                 obs.append(bad('EFFECTS', 'EFFECTS|derefmut|%s|#%d' % (b.name, k), 'mutable access to a global registry guard on the parse / evaluation / rendering path (%s)' % b.name, c.where(), body=b.name, bb=c.bb))
